@@ -22,8 +22,10 @@ def check(repo, rep, tier):
     rc.r_chart(m, rep, 'R10.2')
     rc.r_search_loop(m, rep, 'R10.2')
     rc.r_priority(m, rep, 'R10.1')
+    rc.r_items_immutable(m, rep, 'R10.2')
     rp.r_retrieve_tree(repo, rep, 'R10.3', {'score', 'shape'})
     ti = rp.r_category_table(repo, rep, 'R10.3')
     if ti:
         rp.r_sentence_loop(repo, rep, 'R10.3', ti)
+        rp.r_callbacks(repo, rep, 'R10.2')
     rep.floor('chart constructions', len(m.chart_args), 2)
